@@ -20,6 +20,7 @@ pub mod c12;
 pub mod c13;
 pub mod c14;
 pub mod c15;
+pub mod c16;
 pub mod c17;
 pub mod c18;
 pub mod c19;
@@ -44,6 +45,7 @@ const TABLE: &[(&str, RunFn, ReplayFn)] = &[
     ("C13", c13::run, c13::replay),
     ("C14", c14::run, c14::replay),
     ("C15", c15::run, c15::replay),
+    ("C16", c16::run, c16::replay),
     ("C17", c17::run, c17::replay),
     ("C18", c18::run, c18::replay),
     ("C19", c19::run, c19::replay),
